@@ -117,6 +117,14 @@ Proof.
     + eapply IH; eauto.
 Qed.
 
+Lemma merge_some_spec {A} (f : A -> option pctx) l b : merge_some f l = Some b -> exists a c, In a l /\ f a = Some c.
+Proof.
+  revert b. induction l as [|a r IH]; intros b H; cbn in H; [discriminate|].
+  destruct (f a) as [c|] eqn:E.
+  - exists a, c. split; [left; reflexivity|exact E].
+  - destruct (IH _ H) as (a' & c' & Hin & Hf). exists a', c'. split; [right; exact Hin|exact Hf].
+Qed.
+
 Lemma first_some_spec {A B} (f : A -> option B) l b : first_some f l = Some b -> exists a, In a l /\ f a = Some b.
 Proof.
   induction l as [|a l IH]; cbn; [discriminate|]. destruct (f a) eqn:E.
@@ -264,7 +272,7 @@ Proof.
                      | Some y =>
                          let c1 := set_nk c p (ka + 1) in
                          let sources := match m with [] => [init_val s] | _ => map snd m end in
-                         match first_some (fun e => mut_check mpr msc s (p ++ [PKey ka]) c1 e y) sources with
+                         match merge_some (fun e => mut_check mpr msc s (p ++ [PKey ka]) c1 e y) sources with
                          | None => None
                          | Some c2 => map_children (mut_check mpr msc s) p (remove_key ka m) (remove_key ka m0) c2
                          end
@@ -274,8 +282,8 @@ Proof.
     { intros ka Ha Hka Hadd. destruct (negb (can_true mpr && (at_min || negb at_max) && N.leb nk ka)) eqn:Eg; [discriminate|]. apply negb_false_iff in Eg.
       apply andb_prop in Eg. destruct Eg as [Eg _]. apply andb_prop in Eg. destruct Eg as [_ Eg]. split; [exact Eg|].
       destruct (nlookup ka m0) as [y|] eqn:Ey; [|discriminate]. cbn zeta in Ha.
-      destruct (first_some _ _) as [c2|] eqn:Ef; [|discriminate].
-      destruct (first_some_spec _ _ _ Ef) as (e & He & Hey).
+      destruct (merge_some _ _) as [c2|] eqn:Ef; [|discriminate].
+      destruct (merge_some_spec _ _ _ Ef) as (e & cx & He & Hey).
       assert (Hce : conforms_g false s e = true).
       { destruct m as [|m1 mr] eqn:Em.
         - destruct He as [He|[]]. subst e. apply conforms_weaken. apply wf_init_conforms. exact W.
